@@ -10,8 +10,8 @@ CLAIMED = {
          'A-STR (int parsing uninterpreted); the relational statement feed(pieces)==feed(whole) is bounded (message family x all 2-/3-piece cuts + bytewise), not proved'),
  'C04': ('4.C04', 'reduced claim: follow-up branch of HttpProxyPlugin.on_client_data — an incomplete follow-up request is kept across segments, a complete one is forwarded exactly once, scrubbed, and the parser reset',
          'right-origin / right-route selection for follow-ups is NOT claimed (open known findings F11, F12); adversarial follow-up parser; pass-through-or-drop plugins'),
- 'C05': ('4.C05', 'no-escape and isolation-frame contracts on Threadless._cleanup/_cleanup_inactive and ThreadlessFdExecutor.work against adversarial works',
-         'E-SEL (selector does not raise for recorded descriptors), asyncio task plumbing (_run_once) not covered, _cleanup_inactive loops unrolled (bounded: <=2 works)'),
+ 'C05': ('4.C05', 'no-escape and isolation-frame contracts on Threadless._cleanup / _cleanup_inactive / _update_selector (per-work event refresh) and ThreadlessFdExecutor.work against adversarial works and a raising selector',
+         'E-SEL (selector.unregister raises at most KeyError), asyncio task plumbing (_run_once) not covered, loops of _cleanup_inactive / _update_selector unrolled (bounded: <=2 works)'),
  'C06': ('4.C06', 'build_http_pkt == RFC 7230 serialisation spec function (loop invariant), exact bytes and Content-Length framing rule of build_http_request / build_http_response (one length field whatever its spelling, none for chunked), _parse_first_request: parse failure => exactly the canned 400 + exception, rejection => 400 + teardown; every self-made response parsed by http.client in a native closed-term / grid check (bounded)',
          'A-STR (lower/join uninterpreted), adversarial parser and plugin contracts; okResponse / canned packets are covered by the bounded native check only'),
  'C07': ('4.C07', 'teardown only when the client buffer is empty or the client is dead (T1), write interest while output is pending (T2), promptness (T3), deferred teardown flag (T4) on the real handlers',
